@@ -42,7 +42,9 @@ async def _scenario(loop, kind, size, connect, abort, followup, *, delay=1.0, ta
     ctl = harness.Ctl()
     ctl.record = False
     if delay is not None:
-        ctl.delays = {"read": delay, "write": delay, "list.next": delay, "_open": delay, "close": delay / 4}
+        ctl.delays = {"read": delay, "write": delay, "list.next": delay, "_open": delay, "close": delay / 4,
+                      # the checks made before the 150 suspend too: an ABOR right behind the command meets a handler in progress
+                      "exists": delay / 8, "is_file": delay / 8, "is_dir": delay / 8}
     fac = instrument(aioftp.MemoryPathIO, ctl)
     server = aioftp.Server(path_io_factory=fac, block_size=BLOCK, wait_future_timeout=3)
     await server.start(HOST, PORT)
@@ -233,9 +235,12 @@ def judge(kind, size, connect, abort, followup, out, tag):
     if kind == "NONE":
         allowed = {("226",)}
     else:
-        allowed = {("150", "426", "226"), ("150", D, "226"), ("226", "150", D)}
+        allowed = {("150", "426", "226"), ("150", D, "226")}
         if connect == "never":
-            allowed |= {("150", "425", "226"), ("226", "150", "425")}
+            allowed |= {("150", "425", "226")}
+        if abort is not None and abort < 0:
+            # only an ABOR sent *before* the command may be answered first and leave the transfer alone
+            allowed |= {("226", "150", D)} | ({("226", "150", "425")} if connect == "never" else set())
     if r not in allowed:
         n226 = r.count("226") + r.count("200") + r.count("426") + r.count("425")
         if len(r) < 3 and kind != "NONE":
